@@ -28,12 +28,17 @@ import (
 //verif:override github.com/cosmos/cosmos-sdk/x/staking/keeper.NewMsgServerImpl -> c08SdkMsgServer
 
 var c08Reached []*stakingtypes.MsgDelegate
+var c08Created []*stakingtypes.MsgCreateValidator
 
 type c08Sdk struct{ c04Srv }
 
 func (s c08Sdk) Delegate(ctx context.Context, m *stakingtypes.MsgDelegate) (*stakingtypes.MsgDelegateResponse, error) {
 	c08Reached = append(c08Reached, m)
 	return &stakingtypes.MsgDelegateResponse{}, nil
+}
+func (s c08Sdk) CreateValidator(ctx context.Context, m *stakingtypes.MsgCreateValidator) (*stakingtypes.MsgCreateValidatorResponse, error) {
+	c08Created = append(c08Created, m)
+	return &stakingtypes.MsgCreateValidatorResponse{}, nil
 }
 func c08SdkMsgServer(k *sdkstakingkeeper.Keeper) stakingtypes.MsgServer { return c08Sdk{} }
 
@@ -111,5 +116,61 @@ func VerifC08_PrecompileDelegate() {
 		zz.Reach("delegated")
 	}
 	zz.Assert(zz.Implies(zz.And(amount.LTE(delegatable), amount.IsPositive()), err == nil), "a delegation of vested / free coins is not refused by the vesting check")
+	zz.Reach("end")
+}
+
+
+//verif:override (github.com/haqq-network/haqq/precompiles/staking.Precompile).EmitCreateValidatorEvent -> c08EmitCreate
+
+//verif:override (github.com/cosmos/cosmos-sdk/x/staking/types.CommissionRates).String -> c08CommStr
+//verif:override (github.com/cosmos/cosmos-sdk/x/staking/types.Description).String -> c08DescStr
+
+func c08CommStr(c stakingtypes.CommissionRates) string { return "" } // log argument only
+func c08DescStr(d stakingtypes.Description) string     { return "" }
+
+func c08EmitCreate(p Precompile, ctx sdk.Context, stateDB vm.StateDB, msg *stakingtypes.MsgCreateValidator, delegatorAddr common.Address) error {
+	return nil
+}
+
+// VerifC08_PrecompileCreateValidator: a validator self-bond requested through the staking precompile by a clawback vesting
+// account reaches the staking module only if value <= max(balance - unvested(now), 0) - exactly as the native message
+// (C16: the precompile call succeeds or fails in the same cases as the native MsgCreateValidator).
+func VerifC08_PrecompileCreateValidator() {
+	env := zz.NewEnv([]string{"staking"}, nil)
+	now := zz.AnyInt64In("now", 0, int64(1)<<41)
+	start := zz.AnyInt64In("start", 0, int64(1)<<40)
+	ctx := env.Ctx.WithBlockTime(time.Unix(now, 0))
+	vestAmt := zz.AnyAmount("V0.amt", 100)
+	vestLen := zz.AnyInt64In("V0.len", 0, int64(1)<<36)
+	total := sdk.NewCoins(sdk.NewCoin("aISLM", vestAmt))
+	unvestedRef := zz.IteInt(zz.And(start+vestLen <= now, now > start), sdkmath.ZeroInt(), vestAmt)
+	vp := sdkvesting.Periods{{Length: vestLen, Amount: total}}
+	lp := sdkvesting.Periods{{Length: zz.AnyInt64In("lockLen", 0, int64(1)<<36), Amount: total}}
+	addr := sdk.AccAddress(c04Origin.Bytes())
+	acc := vestingtypes.NewClawbackVestingAccount(authtypes.NewBaseAccountWithAddress(addr), sdk.AccAddress(c04Other.Bytes()), total, time.Unix(start, 0), lp, vp, nil)
+	bank := c08BK{bal: zz.AnyAmount("balance", 110)}
+	k := stakingkeeper.NewKeeper(zz.Codec(), env.Key("staking"), c08AK{acc: acc}, bank, authtypes.NewModuleAddress("gov").String())
+	p := Precompile{Precompile: cmn.Precompile{ApprovalExpiration: time.Hour}, stakingKeeper: *k}
+	db := statedb.New(ctx, &c04Ledger{bal: map[common.Address]*big.Int{}}, statedb.NewEmptyTxConfig(common.Hash{}))
+	c08Created = nil
+	value := zz.AnyAmount("value", 110)
+	zz.Assume(value.IsPositive())
+	one := big.NewInt(1)
+	args := []interface{}{
+		Description{Moniker: "m"},
+		Commission{Rate: big.NewInt(0), MaxRate: big.NewInt(0), MaxChangeRate: big.NewInt(0)},
+		one, c04Origin, sdk.ValAddress(c04Origin.Bytes()).String(), "AAAAAAAAAAAAAAAAAAAAAAAAAAAAAAAAAAAAAAAAAAA=", value.BigInt(),
+	}
+	_, err := p.CreateValidator(ctx, c04Origin, &vm.Contract{CallerAddress: c04Origin}, db, c04Method, args)
+	bondable := sdkmath.MaxInt(bank.bal.Sub(unvestedRef), sdkmath.ZeroInt())
+	if err != nil {
+		zz.Assert(len(c08Created) == 0, "a refused self-bond does not reach the staking module")
+		zz.Reach("refused")
+	} else {
+		zz.Assert(len(c08Created) == 1 && c08Created[0].Value.Amount.Equal(value), "exactly the requested self-bond reaches the staking module")
+		zz.Assert(value.LTE(bondable), "unvested coins are not self-bonded through the precompile: value <= max(balance - unvested, 0)")
+		zz.Reach("created")
+	}
+	zz.Assert(zz.Implies(value.LTE(bondable), err == nil), "a self-bond of vested / free coins is not refused by the vesting check")
 	zz.Reach("end")
 }
